@@ -265,6 +265,11 @@ func genC10(g GenCtx) interface{} {
 			// a Refilter is a batch of events: it must not block on (or be torn by) a nearly full consumer buffer
 			sc.Acts = append(sc.Acts, TAct{Op: "refilter", Node: b.filtered[rng.Intn(len(b.filtered))], Filter: randFilter(rng), Async: rng.Intn(2) == 0})
 		}
+		if nNodes > 0 && rng.Intn(40) == 0 {
+			// a consumer (stalled or not) is closed while the stream goes on: its
+			// siblings must not lose anything in the moment it is being removed
+			sc.Acts = append(sc.Acts, TAct{Op: "close", Node: 1 + rng.Intn(nNodes), Async: rng.Intn(2) == 0})
+		}
 		in++
 		if in >= burst {
 			sc.Acts = append(sc.Acts, TAct{Op: "settle"})
@@ -376,7 +381,8 @@ func genC12(g GenCtx) interface{} {
 	nkeys := 1 + rng.Intn(4)
 	sc.Init = genInit(rng, nkeys)
 	sc.Faults = map[string]world.Fault{}
-	for _, k := range []string{"watch-connect-error", "watch-connect-timeout", "watch-connect-hang", "watch-connect-delay", "watch-close-mid", "watch-close-idle", "list-hang"} {
+	for _, k := range []string{"watch-connect-error", "watch-connect-timeout", "watch-connect-hang", "watch-connect-delay", "watch-close-mid", "watch-close-idle", "list-hang",
+		"watch-status-frame", "watch-expired-frame", "watch-connect-expired", "watch-connect-canceled-error", "watch-badobj", "watch-bookmark", "watch-dup"} {
 		if rng.Intn(4) == 0 {
 			sc.Faults[k] = world.Fault{Budget: 1 + rng.Intn(2), Denom: 2 + rng.Intn(4)}
 		}
@@ -427,7 +433,7 @@ func genC12(g GenCtx) interface{} {
 
 // ---------------------------------------------------------------- C14
 
-var listFailKinds = []string{"error", "error-timeout", "error-canceled", "error-canceled-bare", "error-deadline-bare", "nonlist", "nonobjects", "noitems", "nil"}
+var listFailKinds = []string{"error", "error-with-list", "error-with-full-list", "error-timeout", "error-canceled", "error-canceled-bare", "error-deadline-bare", "nonlist", "nonobjects", "noitems", "nil"}
 
 func genC14(g GenCtx) interface{} {
 	sc, rng := baseTree(g)
@@ -450,7 +456,7 @@ func genC14(g GenCtx) interface{} {
 	default:
 		// watch failures of every kind, never fatal
 		sc.Faults = map[string]world.Fault{}
-		for _, k := range []string{"watch-connect-error", "watch-connect-timeout", "watch-connect-canceled-error", "watch-close-mid", "watch-close-after-burst", "watch-close-idle", "watch-status-frame", "watch-bookmark", "watch-badobj", "watch-drop", "watch-dup"} {
+		for _, k := range []string{"watch-connect-error", "watch-connect-timeout", "watch-connect-canceled-error", "watch-close-mid", "watch-close-after-burst", "watch-close-idle", "watch-status-frame", "watch-expired-frame", "watch-connect-expired", "watch-bookmark", "watch-badobj", "watch-drop", "watch-dup"} {
 			if rng.Intn(2) == 0 {
 				sc.Faults[k] = world.Fault{Budget: 1 + rng.Intn(3), Denom: 2 + rng.Intn(3)}
 			}
